@@ -113,7 +113,8 @@ def chirp_case(draw):
     spec = draw(dd_spec(nmin=1, nmax=96))
     dmv, sel = draw(dm_and_ref(spec))
     return {"sig": spec, "dm": dmv, "ref": sel, "dt_unit": draw(st.sampled_from(["s", "us", "ns", "ms"])),
-            "f_unit": draw(st.sampled_from(["Hz", "MHz", "GHz", "kHz"])), "dm_unit": draw(st.sampled_from(["none", "none", "pc / cm3", "kpc / cm3", "pc / m3"]))}
+            "f_unit": draw(st.sampled_from(["Hz", "MHz", "GHz", "kHz"])), "dm_unit": draw(st.sampled_from(["none", "none", "pc / cm3", "kpc / cm3", "pc / m3"])),
+            "dm_k": draw(st.sampled_from(G.DM_KINDS))}
 
 
 def run_chirp(case, stt):
@@ -131,6 +132,9 @@ def run_chirp(case, stt):
         sc = {"pc / cm3": F(1), "kpc / cm3": F(1000), "pc / m3": F(1, 10**6)}[case["dm_unit"]]
         val = float(dm / sc)
         D, dm = pb.DM(val * u.Unit(case["dm_unit"])), F(val) * sc
+    D, kf = G.dm_kind(pb, D, case.get("dm_k"))  # (a user's own dispersion constant scales delay and chirp alike)
+    dm *= kf
+    stt.label("constant_" + (case.get("dm_k") or "lib"))
     z = G.build(spec)
     labels = G.exact_labels(spec)
     # (a) chirp_function at the first channel label with explicit units
@@ -187,7 +191,8 @@ def cdd_case(draw):
         want = draw(st.one_of(st.floats(0.0, 1.0), st.floats(0.0, 0.3), st.floats(0.9, 2.2))) * spec["n"]
         cand = float(F(want) / d1)
         dmv = cap_dm(spec, math.copysign(cand, dmv), sel)
-    return {"sig": spec, "dm": dmv, "ref": sel, "dm_unit": draw(st.sampled_from(["none", "none", "none", "kpc / cm3", "pc / m3", "1 / cm2"]))}
+    return {"sig": spec, "dm": dmv, "ref": sel, "dm_unit": draw(st.sampled_from(["none", "none", "none", "kpc / cm3", "pc / m3", "1 / cm2"])),
+            "dm_k": draw(st.sampled_from(G.DM_KINDS))}
 
 
 DM_UNIT_SCALE = {"pc / cm3": F(1), "kpc / cm3": F(1000), "pc / m3": F(1, 10**6)}
@@ -235,6 +240,9 @@ def run_cdd(case, stt):
     lo, hi, cf = band(spec)
     fr = ref_of(spec, case["ref"]) or cf
     D, dm = mk_dm(pb, case["dm"], case.get("dm_unit"))
+    D, kf = G.dm_kind(pb, D, case.get("dm_k"))
+    dm *= kf
+    stt.label("constant_" + (case.get("dm_k") or "lib"))
     if case.get("dm_unit", "none") != "none":
         stt.label("dm_unit_" + case["dm_unit"])
     z = G.build(spec)
